@@ -68,6 +68,32 @@ func (c *xCall) onto(dest string) bool {
 	return len(m) >= 2 && m[len(m)-1][1] == dest
 }
 
+// touched returns the first call that changed the destination path itself (created it where there was
+// none, truncated or removed or renamed away an existing one) before a rename/link onto it succeeded.
+func (xt *xTrace) touched(dest string, existed bool) *xCall {
+	for i := range xt.Calls {
+		c := &xt.Calls[i]
+		if c.ok() && c.onto(dest) {
+			return nil
+		}
+		m := rePathArg.FindAllStringSubmatch(c.Args, -1)
+		if len(m) == 0 || m[0][1] != dest || strings.HasPrefix(c.Ret, "-1") || c.Ret == "" || c.Ret == "?" {
+			continue
+		}
+		switch c.Name {
+		case "open", "openat", "openat2", "creat":
+			if !existed && (strings.Contains(c.Args, "O_CREAT") || c.Name == "creat") || existed && (strings.Contains(c.Args, "O_TRUNC") || c.Name == "creat") {
+				return c
+			}
+		case "truncate", "unlink", "unlinkat", "rename", "renameat", "renameat2":
+			if existed {
+				return c
+			}
+		}
+	}
+	return nil
+}
+
 func (c *xCall) ok() bool { return c.Ret == "0" || strings.HasPrefix(c.Ret, "0 ") }
 
 // short is a stable rendering of a call for descriptions: name + base names with run-specific digits masked.
